@@ -35,5 +35,7 @@ SEEDED = [
     ("C11-5", "C11-OWN"),
     ("C11-6", "C11-DIR"),
     ("C11-7", "C11-PROP"),
+    ("C11-8", "C11-PRED"),
+    ("C11-9", "C11-ORDER"),
 ]
 MUTANTS = list(MUTANTS) + [_P("seed-" + sid, _os.path.join(_SEEDS, sid, "patch.diff"), rule) for sid, rule in SEEDED if _os.path.exists(_os.path.join(_SEEDS, sid, "patch.diff"))]
